@@ -95,6 +95,12 @@ pub struct Annotated {
 pub fn gen_annotated(rng: &mut Rng, allow_unknown: bool) -> Annotated {
     let n = gen_len(rng);
     let chars: Vec<char> = (0..n).map(|_| gen_char(rng)).collect();
+    gen_annotated_over(rng, chars, allow_unknown)
+}
+
+/// Random labels and tags over a given character sequence (non-empty, no NUL).
+pub fn gen_annotated_over(rng: &mut Rng, chars: Vec<char>, allow_unknown: bool) -> Annotated {
+    let n = chars.len();
     let labels: Vec<u8> = (0..n - 1)
         .map(|_| {
             if allow_unknown && rng.chance(1, 4) {
